@@ -223,6 +223,11 @@ func (w *World) Dial(info *simnet.DialInfo) (simnet.DialOutcome, func(*simnet.En
 	return simnet.DialOK, func(ep *simnet.Endpoint) { w.serve(h, cr, ep) }
 }
 
+// looksLikeTLS: the first bytes of a client are a TLS ClientHello (real mode) or the stub hello.
+func looksLikeTLS(b []byte) bool {
+	return len(b) > 0 && (b[0] == 0x16 || strings.HasPrefix(string(b), "SIMTLS/1 "))
+}
+
 var garbage = []byte("\x15\x03\x01\x00\x02\x02\x28<html><body>It works!</body></html>\x00\xff\xfe\x1b[2J")
 
 func (w *World) serve(h *Host, cr *ConnRec, ep *simnet.Endpoint) {
@@ -243,9 +248,18 @@ func (w *World) serve(h *Host, cr *ConnRec, ep *simnet.Endpoint) {
 	}
 	if h.PlainOnly {
 		// a plaintext-only listener: whatever arrives is recorded; a TLS client will fail
+		var first []byte
 		var tmp [4096]byte
-		n, _ := ep.Read(tmp[:])
-		cr.Plaintext = append(cr.Plaintext, tmp[:n]...)
+		for len(first) < 16 && !bytes.Contains(first, []byte("\n")) {
+			n, err := ep.Read(tmp[:])
+			first = append(first, tmp[:n]...)
+			if err != nil {
+				break
+			}
+		}
+		if !looksLikeTLS(first) {
+			cr.Plaintext = append(cr.Plaintext, first...)
+		}
 		ep.Write([]byte("HTTP/1.0 400 Bad Request\r\nContent-Type: text/plain\r\n\r\nplain http only\n"))
 		ep.Close()
 		return
@@ -466,7 +480,7 @@ func checkRequest(r *Run, cr *ConnRec) {
 	if cr.HsErr != "" || len(cr.Req) == 0 {
 		return
 	}
-	if cr.SNI != "" && !strings.EqualFold(cr.SNI, cr.Host) {
+	if cr.SNI != "" && !strings.EqualFold(strings.TrimSuffix(cr.SNI, "."), strings.TrimSuffix(cr.Host, ".")) {
 		r.Violate("C04", "M-req", "sni-differs-from-dialled-host", fmt.Sprintf("dialled %s, SNI %q", cr.Addr, cr.SNI))
 	}
 	req := string(cr.Req)
